@@ -265,6 +265,13 @@ def scenarios(rng: random.Random, tier: str) -> list[str]:
         for fav in (osi_ok, osi_short, "", osi_ok + osi_short):      # (content that is no AVP list makes the frame undecodable: the reader skips it, C05)
             out.append(nodegen.CONFIGS["out"] + " | start ok,ok | rx 0 " + nodegen.cea(rc, "peer1.x", 2001, 268435464) + ",fav=" + fav +
                        " | tick | adv 1 | tick")
+    # capabilities-exchange messages that fill the node's 2048-byte socket read exactly (once, twice), and their neighbours:
+    # the CER is answered 2001 and the connection becomes ready, the CEA makes the dialled connection ready
+    for total in (2048, 4096, 2044, 2052):
+        out.append(nodegen.CONFIGS["basic"] + " | start | acc | rx 0 " + nodegen.sized(nodegen.cer("peer1.x", "4", 7201, 7202), total) +
+                   " | tick | rx 0 " + nodegen.dwr(7203, 7204) + " | tick")
+        out.append(nodegen.CONFIGS["out"] + " | start ok,ok | rx 0 " + nodegen.sized(nodegen.cea(2001, "peer1.x", 2001, 268435464), total) +
+                   " | tick | rx 0 " + nodegen.dwr(7205, 7206) + " | tick")
     # random deeper
     for i in range(150 if tier == "quick" else 3000):
         cfgn = rng.choice(["basic", "two", "out", "noapp"])
